@@ -1,4 +1,6 @@
 import RainModel.Lemmas.LoopPeers
+import RainModel.Lemmas.LoopHmd
+import RainModel.Lemmas.LoopMetaStop
 import RainModel.Lemmas.LoopMeta
 import RainModel.Lemmas.LoopIdl
 import RainModel.Lemmas.LoopWeak
@@ -23,41 +25,24 @@ theorem adopt_only_if_hash (m : M) (k i len : Nat) (good : Bool) (h0 : m.1.info 
     m.1.cfg.isPrivate = false ∧
     ∃ d, m.1.idls.find? (·.k = k) = some d ∧ i < d.nb ∧ len = blockSizeOf d.size i ∧
       d.pending - 1 = 0 ∧ HashOK m.1 d i good := by
-  unfold handleMetadataData at h1
-  dsimp only at h1
-  split at h1
-  · simp [h0] at h1
-  · next d hd =>
-    split at h1
-    · simp [h0] at h1
-    · next hi =>
-      split at h1
-      · simp [h0] at h1
-      · next hlen =>
-        split at h1
-        · simp [h0] at h1
-        · next hpend =>
-          split at h1
-          · simp [h0] at h1
-          · next hhash =>
-            split at h1
-            · simp [h0] at h1
-            · next hpriv =>
-              refine ⟨by simpa using hpriv, d, hd, by omega, by simpa using hlen, by simpa using hpend, ?_⟩
-              simp only [Bool.not_eq_true', Bool.and_eq_false_iff, not_or, Bool.not_eq_false] at hhash
-              simp only [decide_eq_true_eq, List.all_eq_true] at hhash
-              exact ⟨hhash.1, fun x hx => by simpa using hhash.2 x hx⟩
+  rcases handleMetadataData_info_cases m k i len good with h | ⟨d, hc⟩
+  · rw [h, h0] at h1; cases h1
+  · rw [handleMetadataData_complete m d k i len good hc, hmdAdopt_info_eq] at h1
+    have h0' : (hmdStored m d k i good).1.info = false := h0
+    have hcfg : (hmdStored m d k i good).1.cfg = m.1.cfg := rfl
+    rw [h0', hcfg] at h1
+    obtain ⟨hd, hi, hlen, hpend, hh⟩ := hc
+    have h2 : m.1.cfg.n ≤ m.1.cfg.maxPieces ∧ m.1.cfg.isPrivate = false := by simpa using h1
+    exact ⟨h2.2, d, hd, hi, hlen, hpend, hh⟩
 
 /-- **private_magnet_refused.** A private torrent never adopts metadata fetched from peers, whatever the
 peers send. -/
 theorem private_magnet_refused (m : M) (k i len : Nat) (good : Bool) (hp : m.1.cfg.isPrivate = true) :
     (handleMetadataData m k i len good).1.info = m.1.info := by
-  unfold handleMetadataData
-  dsimp only
-  repeat' split
-  all_goals first
-    | simp
-    | (rename_i h; simp [hp] at h)
+  rcases handleMetadataData_info_cases m k i len good with h | ⟨d, hc⟩
+  · exact h
+  · rw [handleMetadataData_complete m d k i len good hc, hmdAdopt_refused (hmdStored m d k i good) (Or.inr hp)]
+    simp [hmdStored]
 
 /-- Every event other than a metadata data message leaves `info` alone (handler part of a step). -/
 theorem handle_info (s : St) (p : Parked) (kn : Nat → Bool) (op : Op)
@@ -95,6 +80,124 @@ theorem step_adopts_only_if_hash (s : St) (p : Parked) (kn : Nat → Bool) (op :
       exact ⟨hp, d, hd, hh⟩
   · rw [handle_info _ _ _ _ (fun k i len good h => hop ⟨k, i, len, good, h⟩)] at h1
     simp [h0] at h1
+
+/-- **adopt_only_if_within_limit.**  `Session.parseInfo` holds an info dictionary received from peers to
+`Config.MaxPieces` like any other: if a metadata data message turns `info` from false to true, the torrent
+has at most `maxPieces` pieces. -/
+theorem adopt_only_if_within_limit (m : M) (k i len : Nat) (good : Bool) (h0 : m.1.info = false)
+    (h1 : (handleMetadataData m k i len good).1.info = true) : m.1.cfg.n ≤ m.1.cfg.maxPieces := by
+  rcases handleMetadataData_info_cases m k i len good with h | ⟨d, hc⟩
+  · rw [h, h0] at h1; cases h1
+  · rw [handleMetadataData_complete m d k i len good hc, hmdAdopt_info_eq] at h1
+    have h0' : (hmdStored m d k i good).1.info = false := h0
+    have hcfg : (hmdStored m d k i good).1.cfg = m.1.cfg := rfl
+    rw [h0', hcfg] at h1
+    have h2 : m.1.cfg.n ≤ m.1.cfg.maxPieces ∧ m.1.cfg.isPrivate = false := by simpa using h1
+    exact h2.1
+
+/-- **over_limit_info_refused, handler form.**  A torrent with more pieces than `Config.MaxPieces`: whatever
+metadata message arrives, `info` keeps its value; and the message that completes a metadata download with
+the right hash (`HmdComplete`) on a running torrent leaves it stopping with the error recorded
+(`lastErr = true`: "cannot parse info bytes"), every peer and metadata download closed, no allocator. -/
+theorem over_limit_info_refused_step (m : M) (k i len : Nat) (good : Bool)
+    (hn : m.1.cfg.n > m.1.cfg.maxPieces) :
+    (handleMetadataData m k i len good).1.info = m.1.info ∧
+    ∀ d, HmdComplete m d k i len good → m.1.errC = true → m.1.stopAnn = false →
+      (handleMetadataData m k i len good).1.status = .stopping ∧
+      (handleMetadataData m k i len good).1.lastErr = true ∧
+      (handleMetadataData m k i len good).1.idls = [] ∧ (handleMetadataData m k i len good).1.peers = [] ∧
+      (handleMetadataData m k i len good).1.allocator = false ∧
+      (handleMetadataData m k i len good).1.panicked = m.1.panicked := by
+  constructor
+  · rcases handleMetadataData_info_cases m k i len good with h | ⟨d, hc⟩
+    · exact h
+    · rw [handleMetadataData_complete m d k i len good hc, hmdAdopt_refused (hmdStored m d k i good) (Or.inl hn)]
+      simp [hmdStored]
+  · intro d hc he hs
+    rw [handleMetadataData_complete m d k i len good hc]
+    obtain ⟨_, _, f3, f4, f5, _, _, f8, _, f10, f11⟩ :=
+      hmdAdopt_refused_fields (hmdStored m d k i good) (Or.inl hn) ⟨he, hs⟩
+    exact ⟨f3, f4, f10, f8, f5, f11⟩
+
+/-- One event, any parameters: a torrent whose info dictionary `parseInfo` refuses (too many pieces, or
+private) never gets `info`. -/
+theorem step_refused_info (s : St) (p : Parked) (kn : Nat → Bool) (op : Op) (h0 : s.info = false)
+    (h : s.cfg.n > s.cfg.maxPieces ∨ s.cfg.isPrivate = true) : (step s p kn op).1.st.info = false := by
+  cases h1 : (step s p kn op).1.st.info
+  · rfl
+  · obtain ⟨k, i, len, good, rfl, hp, d, hd, hh⟩ := step_adopts_only_if_hash s p kn op h0 h1
+    rcases h with h | h
+    · -- the step adopted: `handleMetadataData` did, but it refuses above the limit
+      exfalso
+      have hstep : (step s p kn (.metadata k i len good)).1.st.info =
+          (handle { s with sto := [], mayStart := [], closedDl := [], mayStartI := false } p kn
+            (.metadata k i len good)).1.1.info := by
+        unfold step
+        dsimp only
+        split <;> simp
+      rw [hstep] at h1
+      unfold handle at h1
+      dsimp only at h1
+      split at h1
+      · simp [h0] at h1
+      · have := (over_limit_info_refused_step
+          (({ s with sto := [], mayStart := [], closedDl := [], mayStartI := false } : St), []) k i len good h).1
+        rw [this] at h1
+        simp [h0] at h1
+    · rw [h] at hp; cases hp
+
+/-- **over_limit_info_refused.**  Along every history — any events with any parameters, any choices of the
+implementation, admissible or not, from any state without metadata (in particular a freshly added magnet
+torrent, `InitLike`) — a torrent with more pieces than `Config.MaxPieces` never adopts an info dictionary
+received from peers: `info` stays false (and the configuration is never changed).  The same holds for a
+private torrent (`private_magnet_refused`, run form). -/
+theorem refused_info_never_adopted (s0 : St) (p0 : Parked) (hi : s0.info = false)
+    (h : s0.cfg.n > s0.cfg.maxPieces ∨ s0.cfg.isPrivate = true) (evs : List Ev) :
+    (drun (s0, p0) evs).1.info = false ∧ (drun (s0, p0) evs).1.cfg = s0.cfg := by
+  induction evs generalizing s0 p0 with
+  | nil => exact ⟨hi, rfl⟩
+  | cons e evs ih =>
+    show (drun (dstep (s0, p0) e) evs).1.info = false ∧ (drun (dstep (s0, p0) e) evs).1.cfg = s0.cfg
+    have hc : (dstep (s0, p0) e).1.cfg = s0.cfg := by unfold dstep; simp
+    have hi' : (dstep (s0, p0) e).1.info = false := by
+      unfold dstep
+      simp only [reconcileIdl_info, reconcile_info]
+      exact step_refused_info s0 p0 e.known e.op hi h
+    have := ih (dstep (s0, p0) e).1 (dstep (s0, p0) e).2 hi' (by rw [hc]; exact h)
+    rw [hc] at this
+    exact this
+
+theorem over_limit_info_refused (s0 : St) (hi : s0.info = false) (hn : s0.cfg.n > s0.cfg.maxPieces)
+    (evs : List Ev) : (drun (s0, none) evs).1.info = false ∧ (drun (s0, none) evs).1.cfg = s0.cfg :=
+  refused_info_never_adopted s0 none hi (Or.inl hn) evs
+
+/-- **over_limit_info_refused, step form.**  The whole step (handler, workers, parked message) in which a
+metadata download completes with the right hash, on a torrent above the piece-count limit (or private), from
+any state of the lifecycle invariant: `info` keeps its value and the torrent ends `Stopped` — or `Stopping`
+behind a tracker that does not answer — with nothing running.  Hypotheses as for `stop_reaches_stopped`: no
+panic so far, no verify command pending. -/
+theorem over_limit_metadata_stops (s : St) (p : Parked) (kn : Nat → Bool) (d : IDl) (k i len : Nat) (good : Bool)
+    (l : Life s) (hpan : s.panicked = none) (hdv : s.doVerify = false)
+    (hk : (s.findPeer k).isSome = true) (hc : HmdComplete (s, []) d k i len good)
+    (h : s.cfg.n > s.cfg.maxPieces ∨ s.cfg.isPrivate = true) :
+    (step s p kn (.metadata k i len good)).1.st.info = s.info ∧
+    ((step s p kn (.metadata k i len good)).1.st.status = .stopped ∨
+      (s.stopHang = true ∧ (step s p kn (.metadata k i len good)).1.st.status = .stopping)) ∧
+    (step s p kn (.metadata k i len good)).1.st.allocator = false ∧
+    (step s p kn (.metadata k i len good)).1.st.peers = [] ∧
+    (step s p kn (.metadata k i len good)).1.st.idls = [] := by
+  obtain ⟨l1, _, l3, l4⟩ := step_metadata_stops s p kn d k i len good l hpan hdv hk hc (Or.inl h)
+  rw [if_pos h] at l3
+  have hnr : (step s p kn (.metadata k i len good)).1.st.errC = false ∨
+      (step s p kn (.metadata k i len good)).1.st.stopAnn = true := by
+    rcases l4 with l4 | ⟨_, l4, _⟩
+    · exact Or.inl ((status_stopped_iff _).1 l4)
+    · exact Or.inr ((status_stopping_iff _).1 l4).2
+  obtain ⟨i1, _, _, _, _, i6, _, i8⟩ := l1.idle hnr
+  refine ⟨l3, ?_, i1, i6, i8⟩
+  rcases l4 with l4 | ⟨l4, l5, _⟩
+  · exact Or.inl l4
+  · exact Or.inr ⟨l4, l5⟩
 
 /-- **oversize_never_requested.** Whenever the implementation's set of metadata downloads is accepted
 by `reconcileIdl` without complaint, every download that was not already running is from a connected
@@ -190,6 +293,39 @@ example : (drun (sm, none) evsm).1.idls.map (fun d => (d.k, d.size)) = [(1, 100)
 example : ¬ drunAdmissibleI (sm, none) (evsm.dropLast ++ [⟨.exths 2 true 5000 false, kn [1, 2], [], [1, 2]⟩]) := by
   simp only [evsm, List.dropLast, List.cons_append, List.nil_append, drunAdmissibleI, Ev.admissibleI, and_true]
   decide
+
+/-! Non-vacuity of `over_limit_info_refused(_step)`: a one-piece magnet torrent under `MaxPieces = 0`.  Two peers
+are connected, peer 1 delivers the whole info dictionary with the right hash: the hypothesis `HmdComplete`
+holds, `info` stays false, the torrent is stopped with the error recorded, both peers are gone.  Under
+`MaxPieces = 1` the same history adopts the metadata and allocates. -/
+private def cl (maxp : Nat) : Cfg :=
+  { pl := 16384, plens := [16384], blocks := [[(0, 16384)]], flens := [16384], fpads := [false], fnames := ["t"],
+    maxPieces := maxp }
+private def sl (maxp : Nat) : St :=
+  { cfg := cl maxp, info := false, infoAtAdd := false, isize := 100, fileExists := [false], known := [false],
+    bad := (cl maxp).dataSects }
+private def evsl : List Ev := [
+  ⟨.gate .open true, kn [], [], []⟩,
+  ⟨.start, kn [], [], []⟩,
+  ⟨.peer 1 "10.0.0.2" true true false, kn [], [], []⟩,
+  ⟨.peer 2 "10.0.0.3" true true false, kn [1], [], []⟩,
+  ⟨.exths 1 true 100 false, kn [1, 2], [], [1]⟩]
+private def evl : Ev := ⟨.metadata 1 0 100 true, kn [1, 2], [], []⟩
+
+example : (sl 0).cfg.n > (sl 0).cfg.maxPieces ∧ (sl 0).info = false := by decide
+/-- the hypotheses of the handler form hold in the state the fifth event leaves -/
+example : (drun (sl 0, none) evsl).1.errC = true ∧ (drun (sl 0, none) evsl).1.stopAnn = false ∧
+    (drun (sl 0, none) evsl).1.peers.length = 2 ∧
+    ∃ d, HmdComplete ((drun (sl 0, none) evsl).1, []) d 1 0 100 true :=
+  ⟨by decide, by decide, by decide,
+    ⟨{ k := 1, size := 100, nb := 1, pending := 1, blocks := [none] }, by rfl, by decide, by decide, by decide,
+      by decide, by decide⟩⟩
+example : (drun (sl 0, none) (evsl ++ [evl])).1.info = false ∧ (drun (sl 0, none) (evsl ++ [evl])).1.status = .stopped ∧
+    (drun (sl 0, none) (evsl ++ [evl])).1.lastErr = true ∧ (drun (sl 0, none) (evsl ++ [evl])).1.peers = [] ∧
+    (drun (sl 0, none) (evsl ++ [evl])).1.allocator = false ∧ (drun (sl 0, none) (evsl ++ [evl])).1.panicked = none := by
+  decide
+example : (drun (sl 1, none) (evsl ++ [evl])).1.info = true ∧ (drun (sl 1, none) (evsl ++ [evl])).1.status = .allocating ∧
+    (drun (sl 1, none) (evsl ++ [evl])).1.peers.length = 2 := by decide
 end Example
 
 end Rain.Props.C13Loop
